@@ -189,3 +189,25 @@
 #else
 #define BABYLON_HAS_ADDRESS_SANITIZER 0
 #endif
+
+// Schedule points for external runtime monitors. Compiled out unless
+// BABYLON_VERIF is defined; never changes behaviour of the library.
+#ifdef BABYLON_VERIF
+namespace babylon {
+namespace verif {
+// A monitor may install a function here; it is called with the name of the
+// point every time a thread passes one. Null (default) means do nothing.
+inline void (*point_hook)(const char*) noexcept = nullptr;
+} // namespace verif
+} // namespace babylon
+#define BABYLON_VERIF_POINT(name)             \
+  do {                                        \
+    if (::babylon::verif::point_hook) {       \
+      ::babylon::verif::point_hook(name);     \
+    }                                         \
+  } while (0)
+#else // !BABYLON_VERIF
+#define BABYLON_VERIF_POINT(name) \
+  do {                            \
+  } while (0)
+#endif // !BABYLON_VERIF
